@@ -13,7 +13,7 @@ CHECKS = {
              "operands compound and depth 3), model-checks the intended bracket rule of the spec against the spec's own Pratt parser "
              "(ParseBack), then each tree is built with the real operators, rendered under six dialect contexts and the real token "
              "stream is parsed back by the same TLA+ parser inside TLC; canonical trees must agree. Criteria combined by the API rather than by an operator (repeated "
-             "filter / where / having / prewhere / conflict-where calls, filter(a, b), Criterion.all / any) are parsed back against the conjunction / disjunction of their parts; the trees are also rendered at eight clause positions; operands that begin and end with a bracketed group and double / triple negations over groups are part of both tiers. A failing tree is "
+             "filter / where / having / prewhere / conflict-where calls, filter(a, b), Criterion.all / any) are parsed back against the conjunction / disjunction of their parts; the trees are also rendered at eight clause positions; operands that begin and end with a bracketed group, double / triple negations over groups and scalar subqueries as operands are part of both tiers. A failing tree is "
              "explained only by a known finding naming the same parent / child / side edge UNDER THE SAME enclosing operator. Exhaustive within the bound, "
              "which is the level the property (a product over operator triples) needs.",
         ref="6/C06", technique="TLA+ reference parser (PT_Expr) + TLC enumeration of trees + trace judging of real renderings (J_C06)"),
@@ -31,7 +31,7 @@ CHECKS = {
     "C08": dict(
         text="PT_Dialect gives the convention table Conv[d] (identifier quote, placeholder style and numbering, boolean / array / interval forms, set-operand "
              "bracketing, row-limiting vocabulary), Broken(toks, d) = the conventions a token stream breaks, and Norm (conventions erased). TLC enumerates 13 "
-             "dialect-sensitive elements (incl. backslash strings and JSON documents: the escape convention) x 17 nesting constructs (incl. a select as function argument in the select list / in ORDER BY, as comparison operand, as CASE result, the set operation's own ORDER BY, INSERT .. SELECT with and without an alias on the target) at depth 1 and 2; each program is rendered under the six dialect classes twice - natively built, and "
+             "dialect-sensitive elements (incl. backslash strings and JSON documents: the escape convention) x 18 nesting constructs (incl. a third set-operation operand built by a class with the other bracket habit, a select as function argument in the select list / in ORDER BY, as comparison operand, as CASE result, the set operation's own ORDER BY, INSERT .. SELECT with and without an alias on the target) at depth 1 and 2; each program is rendered under the six dialect classes twice - natively built, and "
              "with the inner parts built by the generic classes - and J_C08 (TLC) requires: no convention broken at any depth, mixed-built = natively built token "
              "streams, and Norm-equality over all ordered dialect pairs for the neutral subset.",
         ref="6/C08", technique="TLA+ convention table and normalisation (PT_Dialect); TLC element x nesting product rendered natively and mixed; TLC judge (J_C08)"),
@@ -40,15 +40,15 @@ CHECKS = {
              "tail PagTail, its parameter order PagParams and PagGrammatical. TLC enumerates every sequence of <=2 (quick) / <=3 (thorough) setter calls "
              "with zero and positive values x with/without ORDER BY x 4 nesting positions (top level, subquery in FROM, set-operation operand, the set "
              "operation itself); each history is executed under the six dialect classes inline and parameterised, and TLC (J_C09) folds the logged calls "
-             "through the spec and compares the real tail tokens and parameter list with the expected ones. Exhaustive over the stated product.",
+             "through the spec and compares the real tail tokens and parameter list with the expected ones; the head of the SELECT (DISTINCT, SQL Server's TOP) is compared with PT_Builder!SelHead for every order of the calls (J_Head). Exhaustive over the stated product.",
         ref="6/C09", technique="TLA+ builder state machine with per-dialect PagTail (PT_Builder); TLC-generated setter histories replayed; TLC trace judge (J_C09)"),
     "C10": dict(
         text="PT_Embed gives per embedding position what may surround the stand-alone text (brackets, alias) and the relation EmbedsVerbatim: outer tokens = "
              "frame-before . stand-alone inner tokens (placeholders renumbered) . frame-after, where the frame is read off the same outer statement around a "
              "benign inner query and must agree with Embed (FrameOK). TLC enumerates ~97 inner queries - an aliased term of 9 term classes in each inner clause "
-             "(select, where, group by, having, order by, join on, paginated), nested and parameter-carrying inner queries, set operations, queries with the dialect's own clause (MySQL modifiers, DISTINCT ON, TOP) or hints, selects without a FROM of their own, DML..RETURNING bodies (PostgreSQL CTEs) - x 29 "
+             "(select, where, group by, having, order by, join on, paginated), nested and parameter-carrying inner queries, set operations, queries with the dialect's own clause (MySQL modifiers, DISTINCT ON, TOP) or hints, selects without a FROM of their own, DML..RETURNING bodies (PostgreSQL CTEs) - x 33 "
              "positions (FROM, JOIN, IN, comparison, select item, CTE body, INSERT..SELECT, set-operation base / operand, CREATE TABLE AS, operands inside bracketed / "
-             "negated groups, JOIN ON, HAVING, function argument, CASE branch, ORDER BY / GROUP BY item, SET and DO UPDATE value, and the main ones again inside an outer statement that qualifies its columns) x 6 dialects. Both renderings come from the real "
+             "negated groups, JOIN ON, HAVING, function argument, CASE branch, ORDER BY / GROUP BY item, SET and DO UPDATE value, right operand of arithmetic, operand after an opted-out set-operation operand, and the main ones again inside an outer statement that qualifies its columns) x 6 dialects. Both renderings come from the real "
              "code (no reference renderer); J_C10 (TLC) evaluates the relation and reports the inner clause where the embedded text departs.",
         ref="6/C10", technique="TLA+ embedding relation (PT_Embed) over two real renderings; TLC-enumerated inner query x position product; TLC judge (J_C10)"),
     "C11": dict(
@@ -58,7 +58,7 @@ CHECKS = {
              "UPDATE never); QualSeq gives the expected <<clause, qualifier, column>> sequence per "
              "statement kind and dialect, and TLC checks RefQualified on it. TLC grows ~65k statements: 5 kinds x 5 base source shapes (plain, aliased, schema, "
              "subquery, CTE reference) x 10 second-source shapes (FROM / JOIN ON / USING / CROSS over plain, aliased, subquery) x up to 2 (quick) / 3 (thorough) clause calls (select, where, prewhere, group by, having, order by, set, returning, conflict target / handler) holding a field of an in-scope or foreign source. "
-             "Each runs under the six dialect classes; J_C11 (TLC) folds the logged calls and compares the qualifier projection of the real tokens with QualSeq.",
+             "Each runs under the six dialect classes; J_C11 (TLC) folds the logged calls and compares the qualifier projection of the real tokens with QualSeq. Statements over 2-3 un-aliased subqueries (flat, nested, doubly nested; from_ / join in every order) are judged by PT_Builder!ExposedOK: the automatic sqN names of one statement level are pairwise distinct and every qualifier names one (J_Names).",
         ref="6/C11", technique="TLA+ builder state machine with NeedsNS/QualSeq (PT_Builder); TLC-grown statements replayed; TLC trace judge on the qualifier projection (J_C11)"),
     "C12": dict(
         text="PT_Builder!AliasSeq gives the expected <<clause, alias>> occurrences: a select item prints its alias once, GROUP BY / ORDER BY write an alias only "
@@ -87,7 +87,7 @@ CHECKS = {
              "over 15 source shapes incl. aliased, schema, two databases, temporal, equal-but-distinct, aliased and un-aliased subqueries, set operation, CTE, columns written without a table; both operand orders; function operands), all "
              "orders of <=3 conflict-handler calls on INSERT .. VALUES and INSERT .. SELECT, all <=3-call statement-kind switches, set-operation arities, CASE, RETURNING x statement kind x 19 term shapes (own / joined / foreign column, star, expression, CASE, aggregate, function and tuple over a foreign column), "
              "DDL / temporal / rollup one-shots. Each is executed on the real library and J_C14 (TLC) compares every call's and the render's exception "
-             "class with the spec in both directions (missed / false rejection / wrong class).",
+             "class with the spec in both directions (missed / false rejection / wrong class); a call that was refused must leave the alias of the tables passed to it as it was.",
         ref="6/C14", technique="TLA+ guard functions over the abstract builder state (PT_Builder!Raises); TLC-grown programs replayed; TLC trace judge (J_C14)"),
     "C15": dict(
         text="Same heap model and judge as C01 with the duplication actions enabled: PT_Sharing!Dup models copy.copy (shares what __copy__ does "
@@ -95,7 +95,7 @@ CHECKS = {
              "[dup, call] / [call, dup] over all labels of all 85 scenarios and the three mechanisms (thorough: [call, dup, call] on the rich seeds). "
              "Each is executed on the real library; J_Frozen requires that duplication never raises, that the duplicate is observed exactly "
              "like its original (6 contexts x inline/param + metadata), and that later calls on either side leave the other unchanged. Builders created with "
-             "immutable=False are duplicated too (PT_Sharing!MCall: the receiver coming back is their protocol; the duplicate / the original must still not move).",
+             "immutable=False (from their first call on) are duplicated too (PT_Sharing!MCall: the receiver coming back is their protocol; the duplicate / the original must still not move).",
         ref="6/C15", technique="TLA+ heap model with Dup actions (PT_Sharing) as history generator; replay on the code; TLC trace judge (J_Frozen)"),
     "C02": dict(
         text="PT_RenderConc models k renderer threads over one shared object as interleaved attribute micro-steps with a write footprint; TLC "
